@@ -16,6 +16,7 @@ Python never judges: it maps abstract <-> concrete and records.
 """
 import atexit
 import collections
+import hashlib
 import json
 import os
 import pickle
@@ -80,10 +81,11 @@ HEADERS = [
 TIERS = {
     "quick": dict(
         fmt=dict(KeyLen=1, ValLen=2, TwoKeys=True, SecondToks={"END", "dq"}, NRows={1}),
-        brt=dict(RowCounts={1, 2, 5}, CrossIO=False, MaxFields=6), sim=400, random=1500),
+        brt=dict(RowCounts={1, 2, 5}, CrossIO=False, MaxFields=6, BigItems={12, 20}, BigExps={24}), sim=400, random=1500),
     "thorough": dict(
         fmt=dict(KeyLen=2, ValLen=2, TwoKeys=True, SecondToks=set(ALPHABET), NRows={25}),
-        brt=dict(RowCounts={1, 2, 5}, CrossIO=True, MaxFields=6), sim=20000, random=20000),
+        brt=dict(RowCounts={1, 2, 5}, CrossIO=True, MaxFields=6, BigItems={3, 8, 12, 16, 20, 24}, BigExps={24, 25}),
+        sim=20000, random=20000),
 }
 
 
@@ -211,18 +213,50 @@ def lay_out(a, layout, descr, pat):
     return v
 
 
+def build_big_array(descr, n, pat):
+    """a big table with a counter pattern (vectorised): the first bytes of row i hold i little-endian, the others
+    depend on (i, column) - a row shifted by any number of bytes, or moved, is visible"""
+    dt = np_dtype(descr)
+    isz = dt.itemsize
+    if any(f["kind"] == "b" for f in descr):
+        raise MachineryError("big tables are generated without bool fields")
+    i = np.arange(n, dtype=np.uint64)
+    raw = np.empty((n, isz), dtype=np.uint8)
+    for j in range(isz):
+        if j < 4:
+            raw[:, j] = (i >> np.uint64(8 * j)) & np.uint64(0xFF)
+        else:
+            raw[:, j] = (i * np.uint64(31 + 2 * j) + np.uint64(7 * j + pat)) & np.uint64(0xFF)
+    return raw.reshape(-1).view(dt)
+
+
+def case_n(case):
+    return int(case.get("n", case["nrows"]))
+
+
+def case_block(case):
+    return int(case.get("block", 1))
+
+
 def case_array(case):
+    if case_block(case) > 1:
+        return build_big_array(case["descr"], case_n(case), case.get("pat", 0))
     a = build_array(case["descr"], case["nrows"], case.get("pat", 0))
     return lay_out(a, case.get("layout", "contig"), case["descr"], case.get("pat", 0))
 
 
-def row_tokens(a):
-    """row byte patterns -> tokens (equal bytes <=> equal token), and the lookup table"""
+def _block_key(flat, i, block):
+    b = flat[i:i + block].tobytes()
+    return b if block == 1 else hashlib.blake2b(b, digest_size=16).digest()
+
+
+def row_tokens(a, block=1):
+    """row byte patterns -> tokens (equal bytes <=> equal token), and the lookup table; with block > 1 a token
+    stands for `block` consecutive rows (compared by digest)"""
     tab, toks = {}, []
     flat = np.ascontiguousarray(a).reshape(-1)
-    for i in range(flat.size):
-        b = flat[i:i + 1].tobytes()
-        toks.append(tab.setdefault(b, len(tab) + 1))
+    for i in range(0, flat.size, block):
+        toks.append(tab.setdefault(_block_key(flat, i, block), len(tab) + 1))
     return toks, tab
 
 
@@ -243,9 +277,9 @@ def project_dtype(dt):
     return out
 
 
-def project_rows(data, tab):
+def project_rows(data, tab, block=1):
     flat = np.ascontiguousarray(data).reshape(-1)
-    return [tab.get(flat[i:i + 1].tobytes(), 0) for i in range(flat.size)]
+    return [tab.get(_block_key(flat, i, block), 0) for i in range(0, flat.size, block)]
 
 
 def safe_eq(a, b):
@@ -420,13 +454,15 @@ def exec_unit(args):
         a = case_array(case)
         hdr = header_of(case)
         user = list(hdr.items()) if hdr else []
-        toks, tab = row_tokens(a)
-        before = a.tobytes()
+        block = case_block(case)
+        toks, tab = row_tokens(a, block)
+        before = a.tobytes() if block == 1 else None
         rec = {"id": rid, "case": case, "prev": prev,
-               "c": {"writer": case["writer"], "layout": case.get("layout", "contig"), "descr": project_dtype(a.dtype), "rows": toks,
+               "c": {"writer": case["writer"], "layout": case.get("layout", "contig"), "descr": project_dtype(a.dtype),
+                     "n": int(a.size), "block": case_block(case), "rows": toks,
                      "hdr": {"given": hdr is not None,
                              "ents": [{"k": i, "v": i, "reserved": k.startswith("_")} for i, (k, _) in enumerate(user, 1)]}},
-               "w": {"err": "none"}, "obs": [], "groups": [], "raw": {"seen": False, "rows": []}, "info": {}}
+               "w": {"err": "none"}, "obs": [], "groups": [], "raw": {"seen": False, "n": 0, "rows": []}, "info": {}}
         if rec["c"]["descr"] != [dict(f, shape=[int(x) for x in f["shape"]], size=int(f["size"])) for f in case["descr"]]:
             raise MachineryError("dtype construction does not match the case: %s vs %s" % (rec["c"]["descr"], case["descr"]))
         try:
@@ -436,7 +472,7 @@ def exec_unit(args):
         except Exception as e:  # noqa
             rec["w"] = {"err": type(e).__name__, "msg": str(e)[:200]}
             return rec
-        rec["info"]["arg_unchanged"] = (a.tobytes() == before)
+        rec["info"]["arg_unchanged"] = (before is None or a.tobytes() == before)
         size = os.path.getsize(path)
         # data region: the tail of a header file; the whole of a header-less file (read with the default offset 0)
         off = size - a.nbytes if case["writer"] in HDR_WRITERS else 0
@@ -444,23 +480,26 @@ def exec_unit(args):
             blob = f.read()
         if off >= 0 and len(blob) - off == a.nbytes:
             try:
-                rec["raw"] = {"seen": True, "rows": project_rows(np.frombuffer(blob[off:], dtype=a.dtype), tab)}
+                rec["raw"] = {"seen": True, "n": int(a.size),
+                              "rows": project_rows(np.frombuffer(blob[off:], dtype=a.dtype), tab, block)}
             except Exception:  # noqa
-                rec["raw"] = {"seen": True, "rows": []}
+                rec["raw"] = {"seen": True, "n": 0, "rows": []}
         else:
-            rec["raw"] = {"seen": True, "rows": []}
+            rec["raw"] = {"seen": True, "n": 0, "rows": []}
         rec["info"]["hlen"] = off
         rec["info"]["ends_with_END"] = blob[:max(off, 0)].endswith(b"\nEND\n\n")
+        del blob
         readers = (SELF_READERS + GIVEN_READERS) if case["writer"] in HDR_WRITERS else GIVEN_READERS
         for j, reader in enumerate(readers):
-            o = {"reader": reader, "err": "none", "descr": [], "rows": [], "hdr": NO_HDR}
+            o = {"reader": reader, "err": "none", "descr": [], "n": 0, "rows": [], "hdr": NO_HDR}
             try:
                 d, h = do_read(reader, path, a, max(off, 0), case.get("pat", 0) + j, reuse)
                 if not isinstance(d, np.ndarray):
                     o["err"] = "not_an_array"
                 else:
                     o["descr"] = project_dtype(d.dtype)
-                    o["rows"] = project_rows(d, tab)
+                    o["n"] = int(d.size)
+                    o["rows"] = project_rows(d, tab, block)
                     if h is not None:
                         o["hdr"] = project_header(h, user)
                         if isinstance(h, dict) and not all(k in h and strict_equal(h[k], v) for k, v in user):
@@ -488,10 +527,10 @@ def group_obs(obs):
     """entry points that returned exactly the same thing share one observation (readers = their names)"""
     groups, index = [], {}
     for o in obs:
-        key = json.dumps([o["err"], o["descr"], o["rows"], o["hdr"]], sort_keys=True)
+        key = json.dumps([o["err"], o["descr"], o["n"], o["rows"], o["hdr"]], sort_keys=True)
         if key not in index:
             index[key] = len(groups)
-            groups.append({"readers": [], "err": o["err"], "descr": o["descr"], "rows": o["rows"], "hdr": o["hdr"]})
+            groups.append({"readers": [], "err": o["err"], "descr": o["descr"], "n": o["n"], "rows": o["rows"], "hdr": o["hdr"]})
         groups[index[key]]["readers"].append(o["reader"])
     return groups
 
@@ -597,12 +636,13 @@ def crash_record(unit, why):
     a = case_array(case)
     hdr = header_of(case)
     user = list(hdr.items()) if hdr else []
-    toks, _ = row_tokens(a)
+    toks, _ = row_tokens(a, case_block(case))
     rec = {"id": rid, "case": case, "prev": prev,
-           "c": {"writer": case["writer"], "layout": case.get("layout", "contig"), "descr": project_dtype(a.dtype), "rows": toks,
+           "c": {"writer": case["writer"], "layout": case.get("layout", "contig"), "descr": project_dtype(a.dtype),
+                     "n": int(a.size), "block": case_block(case), "rows": toks,
                  "hdr": {"given": hdr is not None,
                          "ents": [{"k": i, "v": i, "reserved": k.startswith("_")} for i, (k, _) in enumerate(user, 1)]}},
-           "w": {"err": "crashed", "msg": why}, "obs": [], "raw": {"seen": False, "rows": []}, "info": {}}
+           "w": {"err": "crashed", "msg": why}, "obs": [], "raw": {"seen": False, "n": 0, "rows": []}, "info": {}}
     rec["groups"] = []
     return rec
 
@@ -617,17 +657,32 @@ def _crash_with_prev(unit, why):
     return rec
 
 
-def run_units(us):
+def run_units(us, chunk=None):
     _session_root()         # created (and removed at exit) by the parent; the forked children work below it
-    return robust_map(exec_unit, us, _crash_with_prev)
+    return robust_map(exec_unit, us, _crash_with_prev, chunk=chunk)
 
 
 # =========================================== case construction ====================================================
+LOOKALIKE = ("delim", "size", "dtype", "version", "nrows", "shape", "has_fields")
+_PLAUSIBLE = {"delim": ",", "size": 3, "dtype": [("zz", "<i2")], "version": "0.9", "nrows": 7, "shape": (2, 2),
+              "has_fields": False}
+
+
+def ukey_entry(u):
+    """a user key that looks like a reserved name (without the underscore, any letter case) and its value"""
+    name = {"lower": u["name"], "upper": u["name"].upper(), "cap": u["name"].capitalize()}[u["lc"]]
+    return name, (_PLAUSIBLE[u["name"]] if u["val"] == "plausible" else "\t")
+
+
 def case_from_mc(c, k):
-    """a case exported by BinRoundTripMC (header id -> the catalogue's header)"""
+    """a case exported by BinRoundTripMC (header id -> the catalogue's header, plus the look-alike key)"""
     h = HEADERS[c["hid"]]
+    if c["ukey"]["name"] != "none":
+        key, val = ukey_entry(c["ukey"])
+        h = dict(h or {})
+        h[key] = val
     return {"src": c["src"], "writer": c["writer"], "layout": c["layout"], "descr": c["descr"], "nrows": c["nrows"],
-            "hdr": None if h is None else repr(h), "hid": c["hid"], "pat": k}
+            "n": c["n"], "block": c["block"], "hdr": None if h is None else repr(h), "hid": c["hid"], "pat": k}
 
 
 def case_from_fmt(hc, k):
@@ -699,7 +754,14 @@ def rand_header(rng):
         return None
     hdr = {}
     for _ in range(rng.choice([0, 1, 1, 2, 3, 6, 25])):
-        k = rand_str(rng) if rng.random() < 0.8 else rng.choice(["_x", "SIZE", "END", "size", "_", "__", "dtype", "VERSION"])
+        r2 = rng.random()
+        if r2 < 0.75:
+            k = rand_str(rng)
+        elif r2 < 0.9:
+            k = rng.choice(LOOKALIKE)
+            k = rng.choice([k, k.upper(), k.capitalize(), k.swapcase()])
+        else:
+            k = rng.choice(["_x", "SIZE", "END", "_", "__"])
         if k.lower() in RESERVED:
             continue
         hdr[k] = rand_value(rng, 3)
@@ -746,6 +808,8 @@ def hdr_class(case):
     text = (repr(h) if h is not None else "") + " " + " ".join(f["name"] for f in case["descr"])
     if _has_nonfinite(h):
         return "inf_or_nan_header_value"
+    if h and any(k.lower() in LOOKALIKE for k in h):
+        return "key_like_reserved_name"
     if "END" in text:
         return "END_in_header_text"
     if "SIZE" in text:
@@ -803,7 +867,9 @@ def signatures(rec, failing):
                 sig = "%s|%s|%s" % (g, clause, "header_file" if hdr_file else "headerless_file")
             else:
                 noncontig = case.get("layout", "contig") not in ("contig", "zerod")
-                sig = "%s|%s|%s" % (g, clause, "non_contiguous_input" if noncontig else order_class(case))
+                big = case_block(case) > 1
+                sig = "%s|%s|%s" % (g, clause, "non_contiguous_input" if noncontig else
+                                    "table_over_2^24_bytes" if big else order_class(case))
             rep = g if g in ents else (case["writer"] if case["writer"] in ents else sorted(ents)[0])
             out.append((sig, rep, clause))
     return out
@@ -837,7 +903,7 @@ def units(cases, start_id):
 # =========================================== the check ===================================================================
 FMT_INV = ["DataStartRefines", "ParseRefines", "TerminatorUnique"]
 BRT_INV = ["ReadInv", "SizeInv", "CrossEntry", "LastWriteWins", "LayoutIndependent", "CasesInScope"]
-BRT_REQ = ["ChooseSingle", "ChooseFirst", "ChooseSecond", "ChooseIO", "DoWrite", "DoRead", "Rewrite"]
+BRT_REQ = ["ChooseSingle", "ChooseFirst", "ChooseSecond", "ChooseIO", "ChooseBig", "DoWrite", "DoRead", "Rewrite"]
 
 
 def fmt_consts(T, scanner="LINE5", export=False, **over):
@@ -943,7 +1009,11 @@ def run(ctx):
     cases = [c for _, cs in groups for c in cs]
     if not cases:
         return
-    all_recs = run_units(units(cases, 1))
+    us = units(cases, 1)
+    heavy = [u for u in us if case_block(u[2]) > 1 or (u[1] is not None and case_block(u[1]) > 1)]
+    light = [u for u in us if not (case_block(u[2]) > 1 or (u[1] is not None and case_block(u[1]) > 1))]
+    all_recs = sorted(run_units(light) + run_units(heavy, chunk=1), key=lambda r: r["id"])
+    ctx.note(big_table_cases=sum(1 for c in cases if case_block(c) > 1))
     for r in all_recs:
         ctx.count({"p": r["prev"], "c": r["case"]})
     ctx.log("%d write/read cycles executed (%s)" % (len(all_recs), ", ".join("%s %d" % (g, len(cs)) for g, cs in groups)))
@@ -979,14 +1049,16 @@ def run(ctx):
                 "x row count %s (exported from SFileFormatMC.tla); (b) every one-field dtype of 15 element types x 5 sub-array shapes x "
                 "byte orders and every two-field dtype over 6 types x 4 shapes x orders, %s, memory layout of the written array in {contiguous, "
                 "every-second-row view, reversed view, column of a 2-d array, 0-d}, header ids 0..%d by a covering rule, plus %d "
-                "simulated 3..%d-field dtypes (BinRoundTripMC.tla); (c) %d seeded random tables (1..12 fields, rows up to 64) with random "
+                "simulated 3..%d-field dtypes, and tables just above 2^e bytes (e in %s) with row sizes %s written in one call and compared "
+                "block-wise by digest; header-writing cases carry by a covering rule a user key that looks like a reserved name (delim, "
+                "size, dtype, version, nrows, shape, has_fields x letter case x value kind) (BinRoundTripMC.tla); (c) %d seeded random tables (1..12 fields, rows up to 64) with random "
                 "literal headers.  Each case is written through one entry point on a path that held the previous case, read back through "
                 "every reading entry point (10 for header files, 5 for header-less ones) and judged by BinRoundTripTrace.tla.  A case is "
                 "distinct by (previous case, case) and always non-trivial (>= 1 row written and read)." %
                 (F["KeyLen"], F["ValLen"], sorted(F["NRows"]),
                  "writer x row count %s crossed" % sorted(B["RowCounts"]) if B["CrossIO"] else
                  "writer and row count in %s by a covering rule" % sorted(B["RowCounts"]),
-                 len(HEADERS) - 1, T["sim"], B["MaxFields"], T["random"]))
+                 len(HEADERS) - 1, T["sim"], B["MaxFields"], sorted(B["BigExps"]), sorted(B["BigItems"]), T["random"]))
     ctx.exhaustive = True
     ctx.tlc_runs.sort(key=lambda r: r["what"])      # shards finish in any order
     ctx.note(bounds={"fmt": {k: sorted(v) if isinstance(v, set) else v for k, v in F.items()},
